@@ -126,6 +126,20 @@ def check_pairs(pairs, call, info) -> list[str]:
                 bad("tokens(): unknown token type")
         if stack:
             bad("tokens(): unbalanced Start/End stream (unclosed Start)")
+        # a pair IS a matching Start/End token pair: Start at its start, its children's tokens, End at its end
+        want_toks = []
+
+        def emit(p):
+            want_toks.append(("S", p.name, p.start))
+            for c in p.children:
+                emit(c)
+            want_toks.append(("E", p.name, p.end))
+
+        for p in top:
+            emit(p)
+        got_toks = [("S" if isinstance(t, Start) else "E" if isinstance(t, End) else "?", t.rule.name, t.pos) for t in toks]
+        if got_toks != want_toks:
+            bad("tokens(): not the Start(start) .. children .. End(end) stream of the pairs")
         flat = list(pairs.flatten())
         if [(p.name, p.start) for p in flat] != pre:
             bad("flatten() is not the pre-order of the Start tokens")
